@@ -12,16 +12,19 @@ from checks.deccommon import *
 import framegen, synth, mutate
 
 
-def entry_program(rng):
-    r = rng.below(8)
+def entry_program(rng, size=0):
+    r = rng.below(10)
+    if r >= 8:
+        # keep calling after errors: the decoder must keep returning errors (or data), never panic
+        return 'I ' + 'B?b1 ' * 5 + rng.choice(['Zw,100', 'Zc,1', 'Zr,300', 'B?a C'])
     if r == 0: return 'I B?a C'
     if r == 1: return 'I ' + 'B?b1 R100 ' * 4 + 'Zr,1000'
     if r == 2: return 'I B?y%d C Zc,1' % rng.choice([1, 1000, 100000])
-    if r == 3: return 'Zf,%d' % rng.choice([1, 37, 100000])
-    if r == 4: return 'SI Zs,%d' % rng.choice([1, 500, 100000])
+    if r == 3: return 'Zf,%d' % (rng.choice([1, 37, 100000]) if size < 4000 else rng.choice([211, 1000, 100000]))   # (the list-based model is quadratic in the number of calls)
+    if r == 4: return 'SI Zs,%d' % (rng.choice([1, 500, 100000]) if size < 2000 else rng.choice([500, 100000]))
     if r == 5: return 'A%d' % rng.choice([0, 10, 100000, 1000000])
     if r == 6: return 'I B?a W3,50,1 W1000,1000000,0 Zw,100'
-    return 'F20,10 F5,1000 Zf,300'
+    return 'F20,10 F5,1000 Zf,%d' % (300 if size < 30000 else 5000)
 
 
 def run(chk):
@@ -43,7 +46,7 @@ def run(chk):
     per = 14 if thorough else 7
 
     def add(m, label):
-        prog = entry_program(rng)
+        prog = entry_program(rng, len(m))
         pre = ''
         if warm and rng.below(2) == 0 and not prog.startswith(('SI', 'A', 'Zf', 'F')):
             pre = 'src=%s I Ba C ' % hexs(rng.choice(warm))
@@ -79,7 +82,7 @@ def run(chk):
         n = rng.choice([0, 1, 3, 4, 5, 9, 20, 100, 1000])
         head = rng.choice([b'', b'\x28\xb5\x2f\xfd', b'\x28\xb5\x2f\xfd\x00\x00', b'\x50\x2a\x4d\x18'])
         cases.append('random')
-        lines.append('src=%s %s src=%s I Ba C' % (hexs(head + rng.bytes(n)), entry_program(rng), hexs(good)))
+        lines.append('src=%s %s src=%s I Ba C' % (hexs(head + rng.bytes(n)), entry_program(rng, n + len(head)), hexs(good)))
     # hostile dictionaries: corrupted trained dictionaries and random bytes with the dictionary magic
     from checks.C07 import make_dicts
     for d, frs in make_dicts(rng, 2 if thorough else 1):
